@@ -99,8 +99,8 @@ class Ctx:
         cmd = ['timeout', str(timeout), 'tlc', '-workers', str(workers), '-metadir', os.path.join(d, 'md'),
                '-config', cfg] + (extra or []) + [module]
         env = dict(os.environ)
-        if javaopts:
-            env['JAVA_TOOL_OPTIONS'] = javaopts
+        # TLC leaves an empty tlc-<n> directory in java.io.tmpdir per run: keep it inside the scratch space
+        env['JAVA_TOOL_OPTIONS'] = ((javaopts + ' ') if javaopts else '') + '-Djava.io.tmpdir=' + d
         t = time.time()
         p = subprocess.run(cmd, cwd=d, capture_output=True, text=True, env=env)
         out = p.stdout + p.stderr
